@@ -113,6 +113,7 @@ type subState struct {
 	replay      func(raw json.RawMessage, w *W)
 	w           *W
 	started     bool
+	emitted     bool
 }
 
 // Rec is handed to a case body to record what happened.
@@ -199,6 +200,11 @@ func (s *Sub[C]) Active() bool {
 	if s.st.Variant != w.Variant {
 		return false
 	}
+	if w.skip[s.st.Name] >= skipAll {
+		// completed (and reported) by this worker before it crashed and was restarted
+		s.st.emitted = true
+		return false
+	}
 	s.st.started = true
 	return !w.Expired()
 }
@@ -235,11 +241,19 @@ func (s *Sub[C]) Count(evals, states, transitions int64) {
 // found); never an alarm.
 func (s *Sub[C]) Skip(reason string) { s.st.Skipped = reason }
 
+// skipAll in the restart arguments means: the sub-check was completed before the crash.
+const skipAll = 1 << 30
+
 // Done marks the enumeration of this sub-check as complete (call it after the
-// loop if the deadline did not cut it short).
+// loop if the deadline did not cut it short). The counters are reported right
+// away, so they survive a later crash of the worker.
 func (s *Sub[C]) Done() {
 	if s.st.started && !s.st.w.Expired() {
 		s.st.Complete = true
+	}
+	if !s.st.emitted && s.st.w.replaySub == "" {
+		s.st.emitted = true
+		s.st.w.emit(map[string]any{"t": "s", "sub": s.st})
 	}
 }
 
@@ -472,6 +486,8 @@ func runWorker(cfg Config, body func(w *W), tier string, seed int64, shard, vari
 		defer os.RemoveAll(base)
 	}
 	w.scratch = filepath.Join(base, fmt.Sprintf("w%d-%s", idx, variant))
+	// a worker restarted after a crash must not inherit the leftovers of its predecessor
+	os.RemoveAll(w.scratch)
 	os.MkdirAll(w.scratch, 0o755)
 	defer os.RemoveAll(w.scratch)
 	w.replaySub, w.replayRaw = replaySub, replayRaw
@@ -493,6 +509,9 @@ func runWorker(cfg Config, body func(w *W), tier string, seed int64, shard, vari
 	}
 	for _, s := range w.subs {
 		if s.Variant != variant && replaySub == "" {
+			continue
+		}
+		if s.emitted {
 			continue
 		}
 		w.emit(map[string]any{"t": "s", "sub": s})
@@ -795,7 +814,7 @@ func superviseWorker(bin, variant, tier string, i, n int, budget time.Duration) 
 			Case  json.RawMessage
 		}
 		haveJ := false
-		var subs []*subState
+		doneSubs := map[string]bool{}
 		ended := false
 		rd := bufio.NewReaderSize(stdout, 1<<20)
 		for {
@@ -823,7 +842,8 @@ func superviseWorker(bin, variant, tier string, i, n int, budget time.Duration) 
 					case "s":
 						var s subState
 						if json.Unmarshal(m.Sub, &s) == nil {
-							subs = append(subs, &s)
+							res.subs = append(res.subs, &s)
+							doneSubs[s.Name] = true
 						}
 					case "end":
 						ended = true
@@ -836,7 +856,6 @@ func superviseWorker(bin, variant, tier string, i, n int, budget time.Duration) 
 		}
 		werr := cmd.Wait()
 		if ended && werr == nil {
-			res.subs = append(res.subs, subs...)
 			res.ended = true
 			return res
 		}
@@ -848,10 +867,17 @@ func superviseWorker(bin, variant, tier string, i, n int, budget time.Duration) 
 		st := stderr.String()
 		site := crashSite(st)
 		res.violations = append(res.violations, violation{Sub: lastJ.Sub, FP: "crash:" + site, Msg: "process crashed: " + firstLine(crashLine(st)), Detail: tail(st, 3000), Case: lastJ.Case})
-		skip[lastJ.Sub] = lastJ.Owned
 		// counters of the crashed attempt are lost for the cases before the crash;
-		// they are re-enumerated as skipped, so account for them here.
-		res.subs = append(res.subs, &subState{Name: lastJ.Sub, Variant: variant, Evals: int64(lastJ.Owned), States: int64(lastJ.Owned), Outcomes: map[string]int{"crash": 1}, Complete: true})
+		// they are re-enumerated as skipped, so account for them here (only the
+		// cases since the previous restart point of this sub-check).
+		for name := range doneSubs {
+			if name != lastJ.Sub {
+				skip[name] = skipAll
+			}
+		}
+		delta := int64(lastJ.Owned - skip[lastJ.Sub])
+		skip[lastJ.Sub] = lastJ.Owned
+		res.subs = append(res.subs, &subState{Name: lastJ.Sub, Variant: variant, Evals: delta, States: delta, Outcomes: map[string]int{"crash": 1}, Complete: true})
 	}
 	return res
 }
